@@ -47,7 +47,20 @@ def r1(cx):
                 sink = "format_ident!"; arg = tt_str(e["tokens"])
             if sink is None: continue
             cls = source_class(arg)
-            if cls is None and "to_rust_string" not in arg: continue
+            if cls is None and "to_rust_string" not in arg:
+                # not an IDL name R1 can classify.  Constant text is harmless; anything else is text of unknown provenance that is
+                # parsed as Rust source with the parse error unwrapped (C09.R4 hands exactly these unwraps to this rule): fail closed.
+                rest = re.sub(r'"(?:[^"\\]|\\.)*"', "", arg)
+                rest = re.sub(r"\b(format|String|from|as_ref|as_str|to_string|to_owned|into|concat|stringify|Span|call_site|proc_macro2)\b", "", rest)
+                free = sorted(set(re.findall(r"[A-Za-z_][A-Za-z0-9_]*", rest)))
+                if free:
+                    n += 1
+                    expr = re.sub(r"\s+", "", arg)[:90]
+                    k = ordn.get((sink, expr), 0); ordn[(sink, expr)] = k + 1
+                    cx.bad("C09.R1", "gen:%s:%s#%d" % (sink, expr, k), "%s:%d" % (GEN, e["line"]),
+                           "text built from %s is parsed as Rust source by %s and the result unwrapped, but it is neither a classified IDL name nor constant: free IDL text (the interface description and the doc comments may contain any character — a backslash, a quote) that reaches this parser makes the generator panic or emit a different literal; interpolate it through quote!/Literal::string instead" % (free[:6], sink),
+                           witness={"expr": arg[:200], "free_identifiers": free})
+                continue
             if "to_rust_string" in arg and sink == "TokenStream::from_str":
                 # a type expression produced by to_rust_string: only Typename(v) passes IDL text through
                 cls = "typename"
